@@ -1283,32 +1283,11 @@ pub fn validate_b64u_text<'a>(
 
       match decoded {
         Ok(decoded_bytes) => Ok(decoded_bytes == value.as_ref()),
-        Err(_) if is_sloppy => {
-          // RFC 9741: Sloppy mode does not validate that additional trailing
-          // bits (beyond the encoded data) are zero. We try a more lenient
-          // decode that ignores trailing bit issues.
-          let cleaned = text_value.trim_end_matches('=');
-          match data_encoding::BASE64URL_NOPAD.decode(cleaned.as_bytes()) {
-            Ok(decoded_bytes) => Ok(decoded_bytes == value.as_ref()),
-            Err(_) => {
-              // Try with lenient decoding: strip last char if we have trailing
-              // bits that would be non-zero
-              if !cleaned.is_empty() {
-                let without_last = &cleaned[..cleaned.len() - 1];
-                if let Ok(decoded_bytes) =
-                  data_encoding::BASE64URL_NOPAD.decode(without_last.as_bytes())
-                {
-                  // In sloppy mode, if the byte prefix matches, accept it
-                  Ok(value.as_ref().starts_with(&decoded_bytes[..]))
-                } else {
-                  Ok(false)
-                }
-              } else {
-                Ok(false)
-              }
-            }
-          }
-        }
+        Err(_) if is_sloppy => Ok(
+          decode_b64_sloppy(text_value, false)
+            .map(|decoded_bytes| decoded_bytes == value.as_ref())
+            .unwrap_or(false),
+        ),
         Err(_) => Ok(false),
       }
     }
@@ -1317,6 +1296,23 @@ pub fn validate_b64u_text<'a>(
       controller
     )),
   }
+}
+
+/// Decode base64 (classic or url alphabet) the sloppy way of RFC 9741: padding
+/// is optional and the unused trailing bits of the last character need not be
+/// zero. Everything else (alphabet, length) is still checked.
+#[cfg(feature = "additional-controls")]
+pub(crate) fn decode_b64_sloppy(text: &str, is_classic: bool) -> Option<Vec<u8>> {
+  let mut spec = if is_classic {
+    data_encoding::BASE64_NOPAD.specification()
+  } else {
+    data_encoding::BASE64URL_NOPAD.specification()
+  };
+  spec.check_trailing_bits = false;
+  let encoding = spec.encoding().ok()?;
+  encoding
+    .decode(text.trim_end_matches('=').as_bytes())
+    .ok()
 }
 
 #[cfg(feature = "additional-controls")]
@@ -1336,29 +1332,11 @@ pub fn validate_b64c_text<'a>(
 
       match decoded {
         Ok(decoded_bytes) => Ok(decoded_bytes == value.as_ref()),
-        Err(_) if is_sloppy => {
-          // RFC 9741: Sloppy mode does not validate that additional trailing
-          // bits are zero. Try without padding enforcement.
-          let cleaned = text_value.trim_end_matches('=');
-          match data_encoding::BASE64_NOPAD.decode(cleaned.as_bytes()) {
-            Ok(decoded_bytes) => Ok(decoded_bytes == value.as_ref()),
-            Err(_) => {
-              // Try lenient: strip last char for non-zero trailing bits
-              if !cleaned.is_empty() {
-                let without_last = &cleaned[..cleaned.len() - 1];
-                if let Ok(decoded_bytes) =
-                  data_encoding::BASE64_NOPAD.decode(without_last.as_bytes())
-                {
-                  Ok(value.as_ref().starts_with(&decoded_bytes[..]))
-                } else {
-                  Ok(false)
-                }
-              } else {
-                Ok(false)
-              }
-            }
-          }
-        }
+        Err(_) if is_sloppy => Ok(
+          decode_b64_sloppy(text_value, true)
+            .map(|decoded_bytes| decoded_bytes == value.as_ref())
+            .unwrap_or(false),
+        ),
         Err(_) => Ok(false),
       }
     }
